@@ -3,6 +3,8 @@ import io
 import json
 import os
 
+from email.utils import formatdate
+
 from . import core, util, resp, c02, c05
 
 PID = "C04"
@@ -250,7 +252,12 @@ def program_cases(tier, rng):
     for kind in ("files", "pages"):
         for path in ("/a.txt", "/", "/index.html", "/page", "/page.html", "/sub", "/sub/", "/missing", "/../c04site/a.txt", "/bin.dat", "/sub/index.html"):
             for hs in ([], [["Range", "bytes=0-4"]], [["Range", "bytes=0-1,5-6"]], [["If-None-Match", "*"]], [["If-Modified-Since", "Tue, 14 Nov 2030 22:13:20 GMT"]],
-                       [["If-None-Match", "\"nomatch\""]], [["Range", "bytes=99-"]], [["Range", "bytes=2-1"]]):
+                       [["If-None-Match", "\"nomatch\""]], [["Range", "bytes=99-"]], [["Range", "bytes=2-1"]],
+                       # the files' modification time is set into the past (os.utime), their change time is "now":
+                       # dates between the two tell a comparison with st_mtime from one with st_ctime
+                       [["If-Modified-Since", formatdate(c02.MTIME + 10, usegmt=True)]],
+                       [["If-Modified-Since", formatdate(c02.MTIME, usegmt=True)]],
+                       [["If-Modified-Since", formatdate(c02.MTIME - 10, usegmt=True)]]):
                 for method in ("GET", "HEAD"):
                     yield kind, ["diff", kind, path, hs, method]
     # a file larger than the default chunk size (256 KiB): ranges longer than a chunk, aligned and not, ending before EOF
